@@ -25,7 +25,7 @@ ITERS = ['iter', 'drain', 'into_iter']
 PROPS = {
     'C01': dict(
         comps=['mon_c01', 'fault'],
-        theorems=['C01_bound', 'C01_arith', 'C01_monitor_sound'],
+        theorems=['C01_bound', 'C01_arith', 'C01_total', 'C01_monitor_sound'],
         assumptions=['entry_size of every presented pair fits in usize (DESIGN.md 9.2)', '0 < size_of::<Entry<K,V>>() and size_of::<V>() <= size_of::<Entry<K,V>>()'],
     ),
     'C02': dict(
